@@ -14,8 +14,8 @@
 (*           w_ret return (+ RUnlock)                                              *)
 (*   Flush:  f_lk Lock, f_set flush = true, f_ul Unlock, f_rng range w.buf         *)
 (*           (snapshot), per element the inner Write (fw_rl, fw_chk, fw_out |      *)
-(*           fw_app), f_clr w.buf = nil                                            *)
-(*   logWriter.Write: r_lk Lock, r_st store + advance index, r_nt notify           *)
+(*           fw_app, fw_ret), f_clr w.buf = nil                                    *)
+(*   logWriter.Write: r_lk Lock, r_st store, r_ix advance index, r_nt notify       *)
 (*           handlers, r_rt return (+ Unlock)                                      *)
 (*   RegisterHandler: g_lk Lock, g_chk registered? register, g_old the wrap test   *)
 (*           logs[index] # "", g_r1 replay index..N-1, g_r2 replay 0..index-1      *)
@@ -68,11 +68,13 @@ Acts(s, t) ==
     [] pc = "fw_chk" -> { [s EXCEPT !.th[t].pc = IF s.fl THEN "fw_out" ELSE "fw_app"] }
     [] pc = "fw_out" -> { [s EXCEPT !.out = Append(@, th.a[th.k]), !.rd = @ - 1, !.th[t].k = @ + 1,
                                     !.th[t].pc = IF th.k + 1 > Len(th.a) THEN "f_clr" ELSE "fw_rl"] }
-    [] pc = "fw_app" -> { [s EXCEPT !.buf = Append(@, th.a[th.k]), !.rd = @ - 1, !.th[t].k = @ + 1,
+    [] pc = "fw_app" -> { [s EXCEPT !.buf = Append(@, th.a[th.k]), !.th[t].pc = "fw_ret"] }
+    [] pc = "fw_ret" -> { [s EXCEPT !.rd = @ - 1, !.th[t].k = @ + 1,
                                     !.th[t].pc = IF th.k + 1 > Len(th.a) THEN "f_clr" ELSE "fw_rl"] }
     [] pc = "f_clr" -> { [s EXCEPT !.buf = <<>>, !.th[t].a = <<>>, !.th[t].k = 0, !.th[t].pc = "ret"] }
     [] pc = "r_lk"  -> IF s.rl = 0 THEN { [s EXCEPT !.rl = t, !.th[t].pc = "r_st"] } ELSE {}
-    [] pc = "r_st"  -> { [s EXCEPT !.logs[s.idx + 1] = o.v, !.idx = (s.idx + 1) % s.n, !.th[t].pc = "r_nt"] }
+    [] pc = "r_st"  -> { [s EXCEPT !.logs[s.idx + 1] = o.v, !.th[t].pc = "r_ix"] }
+    [] pc = "r_ix"  -> { [s EXCEPT !.idx = (s.idx + 1) % s.n, !.th[t].pc = "r_nt"] }
     [] pc = "r_nt"  -> { [s EXCEPT !.mon = IF s.reg THEN Append(@, o.v) ELSE @, !.th[t].pc = "r_rt"] }
     [] pc = "r_rt"  -> { [s EXCEPT !.rl = 0, !.th[t].pc = "ret"] }
     [] pc = "g_lk"  -> IF s.rl = 0 THEN { [s EXCEPT !.rl = t, !.th[t].pc = "g_chk"] } ELSE {}
